@@ -26,6 +26,10 @@ pub struct Step {
 pub struct Decode {
     /// index into `frames`
     pub frame: usize,
+    /// the reader is positioned at this stream offset when the decode starts (the frame's bytes
+    /// follow `start` bytes of preceding data, e.g. a capture-file header or earlier frames)
+    #[serde(default)]
+    pub start: usize,
     /// per read call (in call order); an exhausted script means full reads without errors
     pub steps: Vec<Step>,
     /// `Interrupted` counts for the reads issued directly after a seek, consumed in order
@@ -268,7 +272,8 @@ impl Engine for ReaderEngine {
                     })
                     .collect();
                 let post_seek_eintr = if post_seek_bias { (0..4).map(|_| if rng.coin() { 1 + rng.below(3) as u8 } else { 0 }).collect() } else { vec![] };
-                Decode { frame, steps, post_seek_eintr }
+                let start = if fault_free || rng.chance(0.7) { 0 } else { *rng.pick(&[1usize, 2, 7, 14, 28, 100]) };
+                Decode { frame, start, steps, post_seek_eintr }
             })
             .collect();
         RScenario { frames: frames.iter().map(|f| wire::hex(f)).collect(), decodes }
@@ -309,7 +314,14 @@ impl Engine for ReaderEngine {
                     }
                 }
             }
-            let mut rd = SimReader::new(bytes, dec);
+            // stream = `start` bytes of unrelated data, then the frame; reader positioned at `start`
+            let mut stream: Vec<u8> = (0..dec.start).map(|i| (i as u8).wrapping_mul(37).wrapping_add(0x8d)).collect();
+            stream.extend_from_slice(bytes);
+            let mut rd = SimReader::new(&stream, dec);
+            rd.pos = dec.start;
+            if dec.start > 0 {
+                out.probe("decode_started_at_nonzero_stream_offset");
+            }
             let got = catch_unwind(AssertUnwindSafe(|| Frame::from_reader(&mut rd)));
             let got_s = match got {
                 Ok(r) => render(&r),
@@ -402,6 +414,16 @@ impl Engine for ReaderEngine {
                 s.decodes[i].steps.truncate(n - 1);
                 c.push(s);
             }
+            if d.start > 0 {
+                let mut s = sc.clone();
+                s.decodes[i].start = 0;
+                c.push(s);
+                if d.start > 1 {
+                    let mut s = sc.clone();
+                    s.decodes[i].start = 1;
+                    c.push(s);
+                }
+            }
             if !d.post_seek_eintr.is_empty() {
                 let mut s = sc.clone();
                 s.decodes[i].post_seek_eintr.clear();
@@ -448,6 +470,7 @@ impl Engine for ReaderEngine {
             "frames": sc.frames,
             "decodes": sc.decodes.iter().map(|d| json!({
                 "frame": d.frame,
+                "reader_start_offset": d.start,
                 "faulted_reads": d.steps.iter().enumerate().filter(|(_, s)| s.eintr > 0 || s.take > 0).take(12)
                     .map(|(i, s)| format!("read#{i}: eintr x{} then fragment<={}", s.eintr, if s.take == 0 { "full".to_string() } else { s.take.to_string() })).collect::<Vec<_>>(),
                 "post_seek_eintr": d.post_seek_eintr,
@@ -463,6 +486,7 @@ impl Engine for ReaderEngine {
             "two_byte_read_split",
             "truncated_or_overlong_buffer_with_eintr",
             "repeated_or_interleaved_decode",
+            "decode_started_at_nonzero_stream_offset",
         ]
     }
 
@@ -475,7 +499,7 @@ impl Engine for ReaderEngine {
     }
 
     fn rule(&self) -> String {
-        "seed -> 1..2 byte strings (every DF 0..31, DF17/18 with every type code, DF20/21 BDS classes, lengths 0..=32) decoded in orders A | A,A | A,B | A,B,A through a scripted reader; per read call the script gives 0..3 Interrupted errors and a fragment cap (full / 1..4 / 1 byte), with an optional bias that puts Interrupted on the read directly after a seek. A run is non-trivial when at least one fault fired (Interrupted or short read) and at least one probe was reached; distinct = distinct fingerprint of the full read/seek call trace plus results.".to_string()
+        "seed -> 1..2 byte strings (every DF 0..31, DF17/18 with every type code, DF20/21 BDS classes, lengths 0..=32) decoded in orders A | A,A | A,B | A,B,A through a scripted reader that starts at stream offset 0 (70 %) or 1..100; per read call the script gives 0..3 Interrupted errors and a fragment cap (full / 1..4 / 1 byte), with an optional bias that puts Interrupted on the read directly after a seek. A run is non-trivial when at least one fault fired (Interrupted or short read) and at least one probe was reached; distinct = distinct fingerprint of the full read/seek call trace plus results.".to_string()
     }
 
     fn assumptions(&self) -> Vec<String> {
